@@ -124,7 +124,7 @@ static inline void readline_push_current_line_to_history(struct readline *rl)
 
 static inline void readline_load_history_line(struct readline *rl)
 {
-    rl->lastsize = rl->line.len;
+    rl->lastsize = rl->line.cursor; // how far the screen cursor is from the line start
 
     if (rl->curhist == 0)
     {
